@@ -100,6 +100,11 @@ class HTTP2Connection(ConnectionInterface):
                 raise ConnectionNotAvailable()
 
         with self._init_lock:
+            if self._state == HTTPConnectionState.CLOSED:
+                # The request that was setting the connection up failed or
+                # was cancelled while we were waiting, and closed it.
+                raise ConnectionNotAvailable()
+
             if not self._sent_connection_init:
                 try:
                     kwargs = {"request": request}
